@@ -117,7 +117,7 @@ build:
 		if cond.IsBool && !cond.B {
 			continue
 		}
-		if _, tracked := u.blkInfo[blk.S]; tracked {
+		if _, tracked := u.blkInfo[blk.S]; tracked && (u.Cfg.RegionHints || siblings) {
 			if u.provable(cond) {
 				st.canon[blk.S] = k
 				return q
